@@ -23,9 +23,9 @@ type HarnessSpec struct {
 	Tier     string         `json:"tier,omitempty"` // "thorough": only in thorough tier
 	Mode     string         `json:"mode,omitempty"` // "" sequential, "sched" schedule layer
 	// schedule harnesses: explicit scenario numbers per tier (instead of 0..scenarios-1)
-	QuickScenarios    []int `json:"quick_scenarios,omitempty"`
-	ThoroughScenarios []int `json:"thorough_scenarios,omitempty"`
-	Note     string         `json:"note,omitempty"`
+	QuickScenarios    []int  `json:"quick_scenarios,omitempty"`
+	ThoroughScenarios []int  `json:"thorough_scenarios,omitempty"`
+	Note              string `json:"note,omitempty"`
 }
 
 type PropertySpec struct {
@@ -484,6 +484,7 @@ func writeEvidence(vd, prop, tier string, seed int, spec *PropertySpec, results 
 	stubs := map[string]bool{}
 	paths, queries, asserts, trivial, discharged, nsat, nunsat, nunk := 0, 0, 0, 0, 0, 0, 0, 0
 	distinct := 0
+	distinctPath := 0
 	var solverS float64
 	var samples []interface{}
 	var perHarness []interface{}
@@ -526,6 +527,7 @@ func writeEvidence(vd, prop, tier string, seed int, spec *PropertySpec, results 
 		nunsat += r.NUnsat
 		nunk += r.NUnknown
 		distinct += len(r.Distinct)
+		distinctPath += len(r.DistinctPath)
 		solverS += r.SolveTime.Seconds()
 		for _, s := range r.Samples {
 			if len(samples) < 12 {
@@ -557,34 +559,36 @@ func writeEvidence(vd, prop, tier string, seed int, spec *PropertySpec, results 
 		samples = append(samples, map[string]interface{}{"note": "no assertion was reached"})
 	}
 	cov := map[string]interface{}{
-		"explanation": spec.Explanation + " Decided by symbolic execution of the real SSA (go/ssa built from the current working tree of the repository) with z3 deciding every assertion on every feasible path; counterexamples are replayed natively before being reported.",
-		"evaluations":         queries,
-		"distinct_nontrivial": distinct,
-		"rule": "evaluations = SMT queries sent to z3 (branch feasibility + negated assertions); distinct_nontrivial = discharged (unsat) assertion queries that did not fold to a constant and mention at least one symbolic variable, distinct by (assertion label, path decision list)",
-		"samples":                     samples,
-		"functions_encoded":           fl,
-		"functions_encoded_count":     len(fl),
-		"stubs_and_models_used":       SortedKeys(stubs),
-		"bounds":                      spec.Bounds,
-		"paths":                       paths,
-		"queries":                     queries,
-		"queries_sat":                 nsat,
-		"queries_unsat":               nunsat,
-		"queries_unknown":             nunk,
-		"assertions_checked":          asserts,
-		"assertions_trivially_true":   trivial,
-		"assertions_discharged_unsat": discharged,
-		"solver_time_s":               solverS,
-		"load_and_ssa_build_s":        loadS,
-		"reach_labels":                reach,
-		"per_harness":                 perHarness,
-		"cross_checked":               map[string]interface{}{"queries": cross.Checked, "disagreements": cross.Disagree, "solvers": cross.Solvers, "seconds": cross.Seconds},
-		"inconclusive":                inconclusive,
-		"undecided_outside_bound":     undecided,
-		"undecided_total":             nUndecided,
-		"known_findings_matched":      knownLines,
-		"solver":                      "z3 4.8.12 (/usr/bin/z3 -in, incremental, :global-declarations)",
-		"exhaustive":                  false,
+		"explanation":                      spec.Explanation + " Decided by symbolic execution of the real SSA (go/ssa built from the current working tree of the repository) with z3 deciding every assertion on every feasible path; counterexamples are replayed natively before being reported.",
+		"evaluations":                      queries,
+		"distinct_nontrivial":              distinct + distinctPath,
+		"rule":                             "evaluations = SMT queries sent to z3 (branch feasibility + negated assertions). distinct_nontrivial = distinct (assertion label, path decision list) pairs established with the solver: (a) assertions whose negation z3 refuted under the path condition (distinct_refuted_by_solver) plus (b) assertions that folded to true on a path whose path condition is symbolic, i.e. they hold for every input of a region whose feasibility and boundaries the solver decided (distinct_on_solver_decided_paths). Assertions on paths without any symbolic decision are not counted.",
+		"distinct_refuted_by_solver":       distinct,
+		"distinct_on_solver_decided_paths": distinctPath,
+		"samples":                          samples,
+		"functions_encoded":                fl,
+		"functions_encoded_count":          len(fl),
+		"stubs_and_models_used":            SortedKeys(stubs),
+		"bounds":                           spec.Bounds,
+		"paths":                            paths,
+		"queries":                          queries,
+		"queries_sat":                      nsat,
+		"queries_unsat":                    nunsat,
+		"queries_unknown":                  nunk,
+		"assertions_checked":               asserts,
+		"assertions_trivially_true":        trivial,
+		"assertions_discharged_unsat":      discharged,
+		"solver_time_s":                    solverS,
+		"load_and_ssa_build_s":             loadS,
+		"reach_labels":                     reach,
+		"per_harness":                      perHarness,
+		"cross_checked":                    map[string]interface{}{"queries": cross.Checked, "disagreements": cross.Disagree, "solvers": cross.Solvers, "seconds": cross.Seconds},
+		"inconclusive":                     inconclusive,
+		"undecided_outside_bound":          undecided,
+		"undecided_total":                  nUndecided,
+		"known_findings_matched":           knownLines,
+		"solver":                           "z3 4.8.12 (/usr/bin/z3 -in, incremental, :global-declarations)",
+		"exhaustive":                       false,
 	}
 	if spec.Level == "model_checking" {
 		cov["states"] = states
